@@ -67,6 +67,9 @@ func AuthUser(th *Thread, s, nonce string) bool {
 	}
 	user := str.BeforeFirst(s, "\x00")
 	passhash := getPassHash(th, user)
+	if passhash == "" {
+		return false // unknown user (or no password hash): nothing secret to prove
+	}
 	hash := sha1.Sum([]byte(nonce + passhash)) //TODO upgrade sha1
 	t := user + "\x00" + string(hash[:])
 	return s == t
